@@ -37,15 +37,15 @@ Section Gen.
   Qed.
 
   Lemma gen_app_inv x : forall n y v, gen G n (x ++ y) v ->
-    exists n1 n2 v1 v2, v = v1 ++ v2 /\ gen G n1 x v1 /\ gen G n2 y v2.
+    exists n1 n2 v1 v2, n = n1 + n2 /\ v = v1 ++ v2 /\ gen G n1 x v1 /\ gen G n2 y v2.
   Proof.
     induction x as [|s x IH]; intros n y v H; simpl in H.
     - exists 0, n, [], v. repeat split; [constructor | exact H].
     - inversion H as [| n0 a x0 v0 Hx | k1 k2 p x0 u1 u2 Hp Hb Hx]; subst.
-      + destruct (IH _ _ _ Hx) as [n1 [n2 [v1 [v2 [-> [H1 H2]]]]]].
+      + destruct (IH _ _ _ Hx) as [n1 [n2 [v1 [v2 [-> [-> [H1 H2]]]]]]].
         exists (S n1), n2, (a :: v1), v2. repeat split; [now constructor | exact H2].
-      + destruct (IH _ _ _ Hx) as [m1 [m2 [w1 [w2 [-> [H1 H2]]]]]].
-        exists (S (k1 + m1)), m2, (u1 ++ w1), w2. rewrite app_assoc. repeat split; [|exact H2].
+      + destruct (IH _ _ _ Hx) as [m1 [m2 [w1 [w2 [-> [-> [H1 H2]]]]]]].
+        exists (S (k1 + m1)), m2, (u1 ++ w1), w2. rewrite app_assoc. repeat split; [lia | | exact H2].
         econstructor; eauto.
   Qed.
 
@@ -55,8 +55,8 @@ Section Gen.
   Lemma gen_step_back x y n v : step G x y -> gen G n y v -> exists m, gen G m x v.
   Proof.
     intros [u w p Hp] H.
-    destruct (gen_app_inv u _ _ _ H) as [n1 [n2 [v1 [v2 [-> [H1 H2]]]]]].
-    destruct (gen_app_inv (body p) _ _ _ H2) as [m1 [m2 [w1 [w2 [-> [H3 H4]]]]]].
+    destruct (gen_app_inv u _ _ _ H) as [n1 [n2 [v1 [v2 [_ [-> [H1 H2]]]]]]].
+    destruct (gen_app_inv (body p) _ _ _ H2) as [m1 [m2 [w1 [w2 [_ [-> [H3 H4]]]]]]].
     eexists. apply (gen_app _ _ _ H1). econstructor; eauto.
   Qed.
 
